@@ -38,7 +38,13 @@ def producer_map(g):
 
 def depfile_path(e):
     # e['dfdir']: the depfile lives in a directory of its own (nothing else creates it: ninja has to, before the command starts)
-    return e.get('dfdir', '') + key(e) + ".d" if e.get('deps') in ('gcc', 'depfile') else None
+    if e.get('deps') not in ('gcc', 'depfile'):
+        return None
+    if e.get('dfdir') == 'nested':
+        # a directory below the first output's own directory (obj/foo.o -> obj/.deps/foo.o.d)
+        d, _, b = key(e).rpartition("/")
+        return (d + "/" if d else "") + ".deps/" + b + ".d"
+    return e.get('dfdir', '') + key(e) + ".d"
 
 
 def rspfile_path(e):
